@@ -221,8 +221,9 @@ def tee_cases(draw, tier):
     uids = Uids()
     items = [uids.fix(x) for x in draw(st.lists(K, max_size=4))]
     n = draw(st.integers(1, 4))
-    ops = draw(st.lists(st.tuples(st.sampled_from(["next", "next", "close"]), st.integers(0, n - 1)),
-                        max_size=14))
+    # "abandon": an __anext__() awaitable is created but never started (a task cancelled before its first step)
+    ops = draw(st.lists(st.tuples(st.sampled_from(["next", "next", "next", "close", "close", "abandon"]),
+                                  st.integers(0, n - 1)), max_size=14))
     ops = [list(o) for o in ops]
     if draw(st.booleans()):
         ops.insert(draw(st.integers(0, len(ops))), ["close-handle", 0])
@@ -262,6 +263,13 @@ def check_tee(case):
                 elif op == "close":
                     await children[i].aclose()
                     done[i] = True
+                elif op == "abandon":
+                    if done[i]:
+                        continue
+                    never_started = children[i].__anext__()
+                    if hasattr(never_started, "close"):
+                        never_started.close()
+                    del never_started
                 else:
                     await handle.aclose()
                     done = [True] * n
